@@ -26,6 +26,8 @@ class Gen:
         self.maybe_closed = set()
         self.nreq_est = 0
         self.cfg, self.on, self.main = [], [], []
+        # requests submitted without completion callback where the API allows it (monitor-only programs)
+        self.nocb = rng.chance(1, 6)
 
     def kind_weights(self):
         if self.bias == "C03":
@@ -52,6 +54,8 @@ class Gen:
 
     def start_op(self, i):
         k = self.kinds[i]
+        if k == "pipe":      # bind path of 1..140 characters (short ones fall back to the base name; > 108 is truncated by libuv)
+            return f"start h{i} {self.r.choice([0, 0, 60, 100, 107, 108, 109, 120, 140])} 0"
         if k == "timer": return f"start h{i} {self.tmo()} {self.rep()}"
         if k == "poll": return f"start h{i} {self.r.choice([1, 1, 1, 2, 3, 3, 0, 5])} 0"
         return f"start h{i} 0 0"
@@ -81,10 +85,12 @@ class Gen:
                 if i is not None: return f"async_send h{i}"
             elif x < 67:
                 if r.chance(1, 4): return r.choice(["work_null", "reject getaddrinfo", "reject getnameinfo", "reject random"])
+                if self.nocb and r.chance(1, 2): self.nreq_est += 1; return "work_nocb"
                 self.nreq_est += 1; return "work"
             elif x < (75 if b == "C02" else 71):
                 i = self.pick(("udp",))
                 if i is not None and r.chance(1, 6): return f"udp_send_bad h{i}"
+                if i is not None and self.nocb and r.chance(1, 2): self.nreq_est += 1; return f"udp_send_nocb h{i}"
                 if i is not None: self.nreq_est += 1; return f"udp_send h{i}"
             elif x < 74:
                 if self.nreq_est: return f"cancel r{r.below(self.nreq_est + 1)}"
@@ -94,6 +100,8 @@ class Gen:
                 i = self.pick(("timer",))
                 if i is not None: return r.choice([f"again h{i}", f"set_repeat h{i} {self.rep()}", f"due_in h{i}"])
             elif x < 84:
+                if in_cb and r.chance(1, 3):     # long work in a callback, then the documented uv_update_time(): timers become overdue
+                    return f"advance {r.range(1, 40)} ; update_time ; backend_timeout"
                 return r.choice([f"advance {r.range(1, 30)}", "update_time", "now"])
             elif x < 90:
                 i = self.pick(("poll",))
@@ -143,10 +151,56 @@ class Gen:
         self.main += ["op run NOWAIT", "op run NOWAIT", "op loop_close"]
         return self.cfg + self.on + self.main
 
+    def build_udp_backlog(self):
+        """udp handle whose sends queue up (the kernel answers EAGAIN first), receiving a datagram at the same time:
+        POLLIN and POLLOUT arrive in one event; the recv callback closes / stops / sends.  Monitors only."""
+        r = self.r
+        nsend = r.choice([1, 2, 3, 10, 12])
+        self.cfg += [f"config metrics {int(r.chance(1, 2))}", "config clock0 1000", f"config cblimit {r.range(20, 40)}",
+                     f"config eagain {r.range(1, 3)}"]
+        self.kinds += ["udp", r.choice(["timer", "check", "idle"])]
+        self.main += ["op init udp", f"op init {self.kinds[1]}", "op start h0 0 0"]
+        for _ in range(nsend):
+            self.main.append("op " + r.choice(["udp_send h0", "udp_send h0", "udp_send_nocb h0"]))
+        self.main.append("op dgram h0")
+        acts = ["close h0", "close h0", "stop h0", "udp_send h0", "alive", "close h0 ; close h1"]
+        for occ in range(2):
+            if r.chance(3, 4):
+                self.on.append(f"on h0 {occ} " + r.choice(acts))
+        for q in range(nsend):
+            if r.chance(1, 4):
+                self.on.append(f"on r{q} 0 " + r.choice(["close h0", "udp_send h0", "dgram h0", "alive"]))
+        for _ in range(r.range(1, 3)):
+            self.main.append("op run " + r.choice(["NOWAIT", "ONCE"]))
+            if r.chance(1, 3): self.main.append("op dgram h0")
+        self.main += ["op close h0", "op close h1", "op run NOWAIT", "op run NOWAIT", "op loop_close"]
+        return self.cfg + self.on + self.main
+
+    def build_stop_then_run(self):
+        """uv_stop() from a callback inside a ONCE / NOWAIT run, then further runs (all modes) with work outstanding"""
+        r = self.r
+        self.cfg += [f"config metrics {int(r.chance(1, 2))}", "config clock0 1000", f"config cblimit {r.range(8, 20)}"]
+        k = r.choice(["timer", "idle", "prepare", "check"])
+        self.kinds += [k, "timer"]
+        self.main += [f"op init {k}", "op init timer", "op start h0 0 " + ("1" if k == "timer" else "0"), f"op start h1 {r.range(0, 5)} {r.range(1, 4)}"]
+        self.on.append("on h0 0 stop_loop")
+        if r.chance(1, 2): self.on.append("on h0 2 stop_loop ; " + self.rand_op(True, 0))
+        if r.chance(1, 2): self.main.append("op work")
+        self.main.append("op run " + r.choice(["ONCE", "NOWAIT", "ONCE", "DEFAULT"]))
+        for _ in range(r.range(1, 3)):
+            if r.chance(1, 3): self.main.append("op " + self.rand_op(False))
+            self.main.append("op run " + r.choice(["DEFAULT", "ONCE", "NOWAIT"]))
+        self.main += ["op close h0", "op close h1", "op run DEFAULT", "op run DEFAULT", "op loop_close"]
+        return self.cfg + self.on + self.main
+
     def build(self):
         r = self.r
         if r.chance(1, 12 if self.bias != "C02" else 6):
             return self.build_fs_traffic()
+        if r.chance(1, 14 if self.bias != "C02" else 7):
+            return self.build_udp_backlog()
+        if self.bias != "C02" and r.chance(1, 12):
+            return self.build_stop_then_run()
         self.cfg.append(f"config metrics {int(r.chance(1, 2))}")
         self.cfg.append(f"config clock0 {r.choice([1000, 1000, 5, 123456789])}")
         self.cfg.append(f"config cblimit {r.range(12, 30 + 10 * self.size)}")
@@ -274,6 +328,10 @@ class Mon:
         self.cp = None        # closing phase: set of handles in the chain detached by uv__run_closing_handles
         truncated = False
         self.vclock = None
+        self.stop_ops = 0         # uv_stop() calls since the previous uv_run() returned
+        self.work_fifo = []       # submitted, not cancelled work requests in pool order
+        self.eagain = any(l.startswith("env sendm") for l in log)
+        pipes_bound = set()
         i = 0
         n = len(log)
         while i < n:
@@ -318,8 +376,15 @@ class Mon:
                         self.stats["close_from_cb"] += 1
                         if cbstack and cbstack[-1][0] == H[hid]["kind"]: self.stats["close_same_phase"] += 1
                     if hid in T: T[hid]["active"] = False
-                elif op == "work":
-                    Rq[nreq] = dict(kind="work", h=None, owed=True, cancelled=False); nreq += 1
+                elif op in ("work", "work_nocb"):
+                    Rq[nreq] = dict(kind="work", h=None, owed=True, cancelled=False, nocb=(op == "work_nocb"), grace=False, await_poll=False)
+                    self.work_fifo.append(nreq); nreq += 1
+                elif op == "udp_send_nocb":
+                    Rq[nreq] = dict(kind="udp", h=hid, owed=True, cancelled=False, sync=False, nocb=True, grace=True, polls=0); nreq += 1
+                elif op == "stop_loop":
+                    self.stop_ops += 1
+                elif op == "start" and hid in H and H[hid]["kind"] == "pipe" and ret == 0:
+                    pipes_bound.add(hid)
                 elif op == "udp_send":
                     inflight = any(q["owed"] and q["h"] == hid for q in Rq.values())
                     own_cb = any(k == "udp_send" and Rq.get(r_, {}).get("h") == hid for k, r_ in cbstack)
@@ -334,7 +399,10 @@ class Mon:
                         self.bad("C01", "sync-reject-registered", f"a synchronously rejected request changed the loop counters", i)
                 elif op == "cancel":
                     rid = int(text[1][1:])
-                    if ret == 0 and rid in Rq: Rq[rid]["cancelled"] = True
+                    if ret == 0 and rid in Rq:
+                        Rq[rid]["cancelled"] = True
+                        if rid in self.work_fifo: self.work_fifo.remove(rid)
+                        if Rq[rid].get("nocb"): Rq[rid]["await_poll"] = True
                     if ret not in (0, -16):
                         self.bad("C01", "cancel-ret", f"uv_cancel returned {ret}", i)
                 elif op in ("ref", "unref") and o0 and nxt and hid in o0["hs"] and hid in nxt["hs"]:
@@ -388,8 +456,10 @@ class Mon:
                     r = in_run
                     in_run = None
                     self.cp = None
+                    self.end_dispatch(Rq, run_end=True)
                     if r is not None and nxt:
                         self.finish_run(r, ret, nxt, H, i)
+                    self.stop_ops = 0
                 i += 1; continue
             if l.startswith("run "):
                 self.stats["runs"] += 1
@@ -410,6 +480,17 @@ class Mon:
                 self.stats["polls"] += 1
                 if res == ["EINTR"]: self.stats["eintr"] += 1
                 if res == ["DEADLOCK"]: self.stats["deadlock"] += 1; truncated = True
+                self.end_dispatch(Rq)
+                for q in Rq.values():
+                    if q.get("await_poll"): q["await_poll"] = False; q["grace"] = True
+                    if q["kind"] == "udp" and q.get("nocb") and q["owed"]:
+                        q["polls"] += 1
+                for _ in range(min(done, len(self.work_fifo))):
+                    q = Rq[self.work_fifo.pop(0)]
+                    if q.get("nocb"): q["grace"] = True      # processed by uv__work_done when the async watcher is dispatched
+                if any(t.startswith("async:") for t in res):
+                    for q in Rq.values():
+                        if q.get("nocb") and q["kind"] == "work" and q["grace"]: q["seen_async"] = True
                 if in_run is None:
                     self.bad("C03", "poll-outside-run", "poller called outside uv_run", i)
                 else:
@@ -435,7 +516,7 @@ class Mon:
                     elif kind == "close":
                         if not h["closing"]:
                             self.bad("C02", "close-cb-without-close", f"close_cb for h{num} without uv_close", i)
-                        owed = [r_ for r_, q in Rq.items() if q["owed"] and q["h"] == num]
+                        owed = [r_ for r_, q in Rq.items() if q["owed"] and q["h"] == num and not q.get("nocb")]
                         if owed:
                             self.bad("C02", "close-cb-before-requests", f"close_cb of h{num} before the callbacks of its requests {owed}", i)
                         if len(w) > 3 and w[3] != "--C":
@@ -469,14 +550,22 @@ class Mon:
                                 self.cp = {x for x, d in H.items() if d["closing"] and not d["dead"]}
                         else:
                             hh = H.get(q["h"])
-                            if status not in (0, -125) or (status == -125 and not (hh and hh["closing"])) or (status == -125 and q["sync"]):
+                            if status not in (0, -125) or (status == -125 and not (hh and hh["closing"])) or (status == -125 and q["sync"] and not self.eagain):
                                 self.bad("C02", "udp-send-status", f"send_cb status {status} (handle closing={hh and hh['closing']}, sent synchronously={q['sync']})", i)
                             if hh and hh["closing"] and not hh["dead"] and self.cp is None:
                                 self.cp = {x for x, d in H.items() if d["closing"] and not d["dead"]}
+                if depth == 0 and kind in ("idle", "prepare", "check", "close", "timer"):
+                    self.end_dispatch(Rq)
+                if kind == "close" and ident[0] == "h":
+                    for q in Rq.values():
+                        if q["kind"] == "udp" and q.get("nocb") and q["h"] == num: q["owed"] = False; q["grace"] = False
+                    if H.get(num, {}).get("kind") == "pipe":
+                        pipes_bound.discard(num)
                 if in_run is not None:
                     if kind not in ("close", "udp_send", "connect"):
                         self.cp = None
-                    if kind in ("timer", "idle", "prepare"): in_run["fresh"] = True
+                    # observations after the end-of-iteration (or run-start) uv__update_time show the exact loop time
+                    if kind in ("timer", "idle", "prepare") or in_run["cur_iter"] is None: in_run["fresh"] = True
                     if kind in ("udp_send", "connect"): in_run["udp_since_poll"] = True
                     in_run["top"].append(("cb", kind, num, i))
                     self.on_top_cb(in_run, kind, num, i)
@@ -489,6 +578,15 @@ class Mon:
             if l.startswith("res "):
                 # resources_released: after the close callback of an fs_event handle its kernel watch is gone unless
                 # another started fs_event handle still watches the (single) directory
+                ms = re.match(r"res h(\d+) sock=(\d+)$", l)
+                if ms:
+                    # resources_released: a closed pipe leaves no socket file behind (uv_close unlinks at once)
+                    want = len([h for h in pipes_bound if not H[h]["closing"]])
+                    self.stats["sock_files_checked"] = self.stats.get("sock_files_checked", 0) + 1
+                    if int(ms.group(2)) != want:
+                        self.bad("C02", "pipe-socket-file-left", f"after close_cb of pipe h{ms.group(1)} the scratch directory holds {ms.group(2)} "
+                                 f"socket file(s); {want} bound pipe(s) are still open", i)
+                    i += 1; continue
                 m = re.match(r"res h(\d+) iw=(-?\d+)$", l)
                 if m and last_obs is not None:
                     others = [h for h, f in last_obs["hs"].items() if H.get(h, {}).get("kind") == "fs_event" and f[0] == "A"]
@@ -497,6 +595,8 @@ class Mon:
                     if int(m.group(2)) != want:
                         self.bad("C02", "fs-event-watch-leak", f"after close_cb of fs_event h{m.group(1)} the loop's inotify descriptor holds "
                                  f"{m.group(2)} kernel watch(es); {want} expected (other active watchers: {others})", i)
+                i += 1; continue
+            if l.startswith("env sendm"):
                 i += 1; continue
             if l.startswith("RUNAWAY-CALLBACKS"):
                 self.bad("C03", "runaway-phase", "a loop phase kept invoking callbacks far beyond the program's callback limit "
@@ -516,14 +616,27 @@ class Mon:
         self.final = dict(H=H, Rq=Rq, truncated=truncated)
         return self
 
+    def end_dispatch(self, Rq, run_end=False):
+        """requests without completion callback: once the batch in which uv__work_done saw them is over (or, for udp
+        sends, after a full iteration / the handle's close) they must not count any more"""
+        for q in Rq.values():
+            if not q.get("nocb") or not q["owed"]:
+                continue
+            if q["kind"] == "work" and q["grace"] and q.get("seen_async"):
+                q["owed"] = False; q["grace"] = False
+            if q["kind"] == "udp" and not self.eagain and (q["polls"] >= 2 or (run_end and q["polls"] >= 1)):
+                q["owed"] = False; q["grace"] = False
+
     # ---- C01: the liveness formula on every observation
     def check_obs(self, o, H, Rq, close_phase, i):
         cnt = sum(1 for f in o["hs"].values() if f[0] == "A" and f[1] == "R" and f[2] == "-")
         if o["ah"] != cnt:
             self.bad("C01", "active-handles-count", f"loop->active_handles={o['ah']} but {cnt} handles are active, referenced and not closing", i)
-        owed = sum(1 for q in Rq.values() if q["owed"])
-        if o["ar"] != owed:
-            self.bad("C01", "active-reqs-count", f"loop->active_reqs.count={o['ar']} but {owed} requests are owed a callback", i)
+        owed_hi = sum(1 for q in Rq.values() if q["owed"])
+        owed = sum(1 for q in Rq.values() if q["owed"] and not q.get("grace"))      # grace: completion may or may not have been processed yet
+        if not (owed <= o["ar"] <= owed_hi):
+            self.bad("C01", "active-reqs-count", f"loop->active_reqs.count={o['ar']} but {owed}"
+                     + (f"..{owed_hi}" if owed_hi != owed else "") + " requests are outstanding (callback owed / completion not yet processed)", i)
         live = {h for h, d in H.items() if not d["dead"]}
         if o["nh"] != len(live) or set(o["hs"]) != live:
             self.bad("C01", "handle-queue", f"uv_walk sees {o['nh']} handles, {len(live)} have no close_cb yet", i)
@@ -537,7 +650,7 @@ class Mon:
         pending_close = {h for h, d in H.items() if d["closing"] and not d["dead"]}
         strict = pending_close - (close_phase or set())
         lo = cnt > 0 or owed > 0 or bool(strict)
-        hi = cnt > 0 or owed > 0 or bool(pending_close)
+        hi = cnt > 0 or owed_hi > 0 or bool(pending_close)
         if close_phase and pending_close & close_phase and not lo and not o["alive"]:
             # known deviation: uv__run_closing_handles has detached the batch, uv_loop_alive() ignores it
             self.stats["alive_in_close_phase"] += 1
@@ -566,8 +679,12 @@ class Mon:
                 self.bad("C01", "run-return", f"uv_run returned {ret} but uv_loop_alive() is {nxt['alive']} right after", i)
         if nxt["stop"]:
             self.bad("C03", "stop-not-cleared", "stop flag still set after uv_run returned", i)
-        if r["mode"] == "DEFAULT" and ret == 1 and not r["stop_seen"]:
-            self.bad("C01", "default-returned-alive", "uv_run(UV_RUN_DEFAULT) returned non-zero without uv_stop", i)
+        if r["mode"] == "DEFAULT" and ret == 1 and (not r["stop_seen"] or self.stop_ops == 0):
+            self.bad("C01", "default-returned-alive", "uv_run(UV_RUN_DEFAULT) returned non-zero although uv_stop() was not called "
+                     "since the previous uv_run() returned", i)
+        if ret == 1 and r["stop_at_start"] and self.stop_ops == 0 and not r["top"]:
+            self.bad("C01", "run-skipped-stale-stop", f"uv_run({r['mode']}) returned at once with the loop alive: a uv_stop() from an earlier "
+                     "uv_run() call was still remembered", i)
         npoll = sum(1 for t in r["top"] if t[0] == "poll")
         if r["stop_at_start"] and r["top"]:
             self.bad("C03", "stop-before-run", "uv_stop before uv_run: the loop still ran callbacks / polled", i)
@@ -646,7 +763,7 @@ class Mon:
             zero, val, lenient = self.expected_timeout(r["mode"], o, r["obs_at_start"] if r["mode"] == "ONCE" else None, H, Rq, T)
             metrics = r.setdefault("metrics", None)
             want = 0 if zero else val
-            r["T"] = want; r["base"] = o["now"]; r["npoll_iter"] = 0
+            r["T"] = want; r["base"] = o["now"]; r["npoll_iter"] = 0; r["amb"] = amb
             # the pending queue (fed only by udp sends here) is invisible to the monitor: a udp send callback
             # since the last poll, or one still owed, makes "0" acceptable as well
             r["lenient"] = lenient or amb or r["udp_since_poll"] or (r["mode"] == "ONCE" and r["udp_owed_at_start"])
@@ -672,6 +789,7 @@ class Mon:
                 if self.metrics and k == 2 and r["prev_empty"] and not r["lenient"] and tmo != want - elapsed and r["first_tmo"] == 0 and want > 0:
                     ok = False
         if r["lenient"] and tmo == 0: ok = True; self.stats["timeout_lenient"] += 1
+        if r.get("amb"): ok = True       # loop time at the decision cannot be reconstructed from the log
         if not ok:
             sig = "timeout-rule" if k == 1 else "block-bound"
             self.bad("C03", sig, f"poll #{k} of iteration {it} got timeout {tmo}; rule says {want} (mode {r['mode']}, metrics={int(self.metrics)}, "
@@ -806,8 +924,10 @@ def prog_metrics(prog):
 
 
 def evaluate(ctx, exe, prog, tag, with_model=True):
-    if any(re.search(r"\btouch\b", l) for l in prog):
-        with_model = False       # file-system traffic: monitors only (the model has no inotify event semantics)
+    if any(re.search(r"\b(touch|work_nocb|udp_send_nocb|dgram)\b|config eagain", l) for l in prog):
+        # file-system traffic, requests without completion callback, incoming datagrams / forced EAGAIN:
+        # monitors only (the model has no semantics for them)
+        with_model = False
     rc, log, err = run_impl(ctx, exe, prog, tag)
     mon = monitors(log, rc, err, prog_metrics(prog))
     try:
@@ -817,7 +937,9 @@ def evaluate(ctx, exe, prog, tag, with_model=True):
     diff = None
     if with_model and rc == 0:
         ml = run_model(ctx, prog, log)
-        if ml != log:
+        log_cmp = [l for l in log if not l.startswith("res ")]     # `res` lines are observations for the monitors only
+        if ml != log_cmp:
+            log = log_cmp
             k = next((j for j in range(min(len(ml), len(log))) if ml[j] != log[j]), min(len(ml), len(log)))
             diff = (k, log[k] if k < len(log) else None, ml[k] if k < len(ml) else None)
     return dict(rc=rc, log=log, err=err, mon=mon, diff=diff, modelled=with_model)
